@@ -403,6 +403,10 @@ def run(prog, rep, tier):
     rep.rule('LABEL-known', 'typestate of leg-label sets: literal labels used on a local tensor '
              'whose complete label set is known (literal transposition, contractions) exist on it')
     check_labels(prog, rep, ['tenpy/networks/mpo.py'])
+    from ..flow import check_carried_flags
+    rep.rule('LOOP-carried-flag', 'a flag set under a test inside a loop body and read there is '
+             're-initialised per iteration')
+    check_carried_flags(prog, rep, ['tenpy/networks/mpo.py'])
     return rep.finish(
         level='other',
         explanation='Flag exhaustiveness over %d W-using MPO methods, flag forwarding of derived '
